@@ -5,7 +5,7 @@ from gen import data, material
 from .common import tolist, history_differs, transform_primers, exceeds
 
 LEAN = "PystogVerif.Props.C01"
-LEAN_EXTRA = ["PystogVerif.Props.C01Sg", "PystogVerif.Props.C01Gauss"]
+LEAN_EXTRA = ["PystogVerif.Props.C01Sg", "PystogVerif.Props.C01Gauss", "PystogVerif.Props.C01Quad"]
 ENTRIES = ["Transformer.F_to_G", "Transformer.G_to_F", "Transformer.S_to_g", "Transformer.g_to_S"]
 RULE = ("three kinds of case: (a) matched DST grids r_j=j dr, Q_k=k pi/(N dr) with N in 2..400 (thorough 2000), random data vanishing "
         "at both ends: F->G->F, G->F->G, S->g->S, g->S->g and basis-vector partners; (b) closed-form family G(r)=sum A r exp(-a r^2) "
